@@ -3,6 +3,25 @@ from lib import flow
 
 _small = dict(module="WriterReady", workers=8)
 _listish = lambda p: any(st.get("shape") == "one" and (st.get("members") or st.get("obj") == "dropped") for st in p.get("steps", []))
+_CRE = ("createDatabase", "createCollection", "createPartition")
+_obj = lambda s: [x for x in (s.get("db"), s.get("coll"), s.get("part")) if x]
+
+
+def _overtaking(p):
+    """an operation is handled before / while the create of an object of its chain lands"""
+    st = p.get("steps", [])
+    for i, s in enumerate(st):
+        if s.get("op") != "deliver":
+            continue
+        if s.get("inflight") in _CRE:
+            return True
+        n = st[i + 1] if i + 1 < len(st) else {}
+        if n.get("op") == "deliver" and n.get("kind") in _CRE and s["t"] > n["t"] and _obj(s)[:len(_obj(n))] == _obj(n):
+            return True
+    # ... or an operation follows a create that the downstream rejected
+    return any(s.get("op") == "deliver" and s.get("fail") and s.get("kind") in _CRE for s in st)
+
+
 _is_list_plan = lambda p: p.get("src") == "lists" or any("shape" in st for st in p.get("steps", []))
 C = dict(
     prop="C08", driver="writerready", level="model_checking",
@@ -16,6 +35,11 @@ C = dict(
         dict(name="cases", module="WriterReady", cfg="WriterReady_PlanCases.cfg", workers=4),
         dict(name="histq", module="WriterReady", cfg="WriterReady_PlanHistQ.cfg", workers=8, tiers=["quick"]),
         dict(name="hist2q", module="WriterReady", cfg="WriterReady_PlanHist2Q.cfg", workers=8, tiers=["quick"]),
+        # operations overtaking the (re-)creation of their object (overq, over, overr); of these histories only those with an overtaking
+        # operation or a rejected create are replayed (expand_plans), the others are part of histq / hist2q / hist / hist2
+        dict(name="overq", module="WriterReady", cfg="WriterReady_PlanOverQ.cfg", workers=4, tiers=["quick"]),
+        dict(name="over", module="WriterReady", cfg="WriterReady_PlanOver.cfg", workers=8, tiers=["thorough"]),
+        dict(name="overr", module="WriterReady", cfg="WriterReady_PlanOverR.cfg", workers=8, tiers=["thorough"], cap={"thorough": 30000}),
         dict(name="hist", module="WriterReady", cfg="WriterReady_PlanHist.cfg", workers=8, tiers=["thorough"]),
         dict(name="hist2", module="WriterReady", cfg="WriterReady_PlanHist2.cfg", workers=8, tiers=["thorough"]),
         dict(name="sim", module="WriterReady", cfg="WriterReady_PlanSim.cfg", simulate={"quick": 200, "thorough": 8000},
@@ -23,7 +47,8 @@ C = dict(
     ],
     # every third history also runs under a whole-database name mapping (the downstream holds the objects under the mapped
     # database, the writer's create / drop tables stay keyed by source names)
-    expand_plans=lambda plans, tier: [q for i, p in enumerate([x for x in plans if x.get("src") != "lists" or _listish(x)]) for q in
+    expand_plans=lambda plans, tier: [q for i, p in enumerate([x for x in plans if (x.get("src") != "lists" or _listish(x))
+                                                                 and (x.get("src") not in ("overq", "over", "overr") or _overtaking(x))]) for q in
                                       ([p] + ([dict(p, plan=str(p["plan"]) + "-map", params=dict(p.get("params") or {}, dbmap="x_"))]
                                               if p.get("src") not in ("cases", "lists") and (i % 3 == 0 or p.get("src") == "directed") else []))],
     directed="plans/C08.jsonl",
@@ -34,7 +59,8 @@ C = dict(
     death="violation",
     nontrivial=lambda t: any(e.get("calls") for e in t["events"]),
     rule="plans = (a) every order type of (t,c,d,cok,dok) x level x downstream existence x way of asking, "
-         "(b) complete histories of WriterReady.tla (two small configurations replayed exhaustively - shorter ones in the quick tier - "
+         "(b) complete histories of WriterReady.tla (two small configurations replayed exhaustively - shorter ones in the quick tier, there "
+         "without overtaking operations, which come from a third configuration of 6-step histories filtered to the overtaking ones - "
          "plus TLC -simulate for the large configuration, capped); non-trivial = at least one downstream call was recorded; distinct = distinct event sequences",
     assumptions=[
         "downstream = recording fake api.DataHandler (harness/wfake1) that models existence of databases/collections/partitions, "
@@ -44,7 +70,12 @@ C = dict(
         "'in flight' = the fake handles the next source operation (a drop of an object of the chain) on the same writer from inside the "
         "operation's own request, i.e. exactly between the readiness check and the answer of the request",
         "'swapped' = two consecutive source operations arriving on different input streams (op messages / catalog events) are "
-        "handled in the reverse order of their stamps (neither is a drop, the later one does not depend on the earlier one)",
+        "handled in the reverse order of their stamps (neither is a drop); 'overtake' = the later one is an operation on / under the "
+        "object the earlier one creates: it is handled completely before the create, or the create is handled from inside the "
+        "operation's own probe (describe) of that object, i.e. between the readiness decision and the answer of the probe",
+        "positive knowledge as understood by the contract (clause NoBlindApply): the writer has seen an object alive when a describe call "
+        "of its level succeeded or its own create of it took effect, until a newer drop of that object is recorded or the writer restarts; "
+        "a request sent for an absent object that is neither known dropped at or after t nor known alive is a violation",
         "recorded drop times as understood by the contract: restart snapshot, then every drop that was sent downstream and ended well",
         "TLC exhaustiveness holds for the constants in the cfg files only",
     ],
@@ -54,11 +85,18 @@ C = dict(
 def run(tier, replay=None):
     if not replay:
         from lib import vlib
-        # negative control of the swapped deliveries: a probe that records the probing operation's stamp as creation time
-        r = vlib.run_tlc("WriterReady", "WriterReady_ProbeTs.cfg", workers=4, timeout=300)
-        if "Contract" not in r.violated:
-            raise vlib.Inconclusive("WriterReady_ProbeTs.cfg no longer violates the contract: out-of-order delivery is vacuous")
-        vlib.log("[tlc] WriterReady/WriterReady_ProbeTs.cfg: violates Contract as expected")
+        from concurrent.futures import ThreadPoolExecutor
+        # negative controls (both must violate the contract, else the corresponding part of the model is vacuous):
+        #  ProbeTs          - swapped deliveries: a probe that records the probing operation's stamp as creation time
+        #  NoProbeAfterDrop - overtaking operations / rejected re-creations: "create < drop < t, both recorded" answered
+        #                     "created" instead of probing (the request is sent for an incarnation nobody has seen)
+        ctl = [("WriterReady_ProbeTs.cfg", "out-of-order delivery"), ("WriterReady_NoProbeAfterDrop.cfg", "an operation overtaking the re-creation")]
+        with ThreadPoolExecutor(len(ctl)) as ex:
+            rs = list(ex.map(lambda c: vlib.run_tlc("WriterReady", c[0], workers=4, timeout=300, tag="WriterReady-ctl-" + c[0][:-4]), ctl))
+        for (cfg, what), r in zip(ctl, rs):
+            if "Contract" not in r.violated:
+                raise vlib.Inconclusive("%s no longer violates the contract: %s is vacuous" % (cfg, what))
+            vlib.log("[tlc] WriterReady/%s: violates Contract as expected" % cfg)
     c = dict(C)
     c["driver_of"] = lambda p: "writerreq" if _is_list_plan(p) else "writerready"
     c["trace_of"] = lambda p: (("WriterReq_Trace", "WriterReq_Trace.cfg", {"PROP": "C08"}) if _is_list_plan(p)
